@@ -908,11 +908,28 @@ func (s *Service) ReconfigureProcessor(_ context.Context, pipelineID, processorI
 func (s *Service) buildRunnablePipeline(
 	ctx context.Context,
 	pl *pipeline.Instance,
-) (*runnablePipeline, error) {
+) (_ *runnablePipeline, err error) {
 	pipelineLogger := s.logger
 	pipelineLogger.Logger = pipelineLogger.Logger.With().Str(log.PipelineIDField, pl.ID).Logger()
 
-	srcTaskSets, err := s.buildSourceTasks(ctx, pl, pipelineLogger)
+	// A processor is reserved as running and its plugin dispensed as soon as
+	// its task is built (MakeRunnableProcessor). If the build fails further on
+	// nobody will ever open or close these tasks, so they are released here -
+	// otherwise Update, Delete and the next start are refused with "processor
+	// already running".
+	var built []*processor.RunnableProcessor
+	defer func() {
+		if err == nil {
+			return
+		}
+		for _, proc := range built {
+			if tdErr := proc.Teardown(ctx); tdErr != nil {
+				pipelineLogger.Err(ctx, tdErr).Msg("could not tear down processor of a pipeline that failed to build")
+			}
+		}
+	}()
+
+	srcTaskSets, err := s.buildSourceTasks(ctx, pl, pipelineLogger, &built)
 	if err != nil {
 		return nil, cerrors.Errorf("failed to build source tasks: %w", err)
 	}
@@ -920,7 +937,7 @@ func (s *Service) buildRunnablePipeline(
 		return nil, cerrors.New("can't build pipeline without any source connectors")
 	}
 
-	destTasks, err := s.buildDestinationTasks(ctx, pl, pipelineLogger)
+	destTasks, err := s.buildDestinationTasks(ctx, pl, pipelineLogger, &built)
 	if err != nil {
 		return nil, cerrors.Errorf("failed to build destination tasks: %w", err)
 	}
@@ -928,7 +945,7 @@ func (s *Service) buildRunnablePipeline(
 		return nil, cerrors.New("can't build pipeline without any destination connectors")
 	}
 
-	procTasks, err := s.buildProcessorTasks(ctx, pl, pl.ProcessorIDs, pipelineLogger)
+	procTasks, err := s.buildProcessorTasks(ctx, pl, pl.ProcessorIDs, pipelineLogger, &built)
 	if err != nil {
 		return nil, cerrors.Errorf("failed to build pipeline processor tasks: %w", err)
 	}
@@ -1114,6 +1131,7 @@ func (s *Service) buildSourceTasks(
 	ctx context.Context,
 	pl *pipeline.Instance,
 	logger log.CtxLogger,
+	built *[]*processor.RunnableProcessor,
 ) ([]sourceTaskSet, error) {
 	var sets []sourceTaskSet
 
@@ -1140,7 +1158,7 @@ func (s *Service) buildSourceTasks(
 		)
 
 		// Add processor tasks
-		procTasks, err := s.buildProcessorTasks(ctx, pl, instance.ProcessorIDs, logger)
+		procTasks, err := s.buildProcessorTasks(ctx, pl, instance.ProcessorIDs, logger, built)
 		if err != nil {
 			return nil, cerrors.Errorf("failed to build source processor tasks: %w", err)
 		}
@@ -1166,6 +1184,7 @@ func (s *Service) buildDestinationTasks(
 	ctx context.Context,
 	pl *pipeline.Instance,
 	logger log.CtxLogger,
+	built *[]*processor.RunnableProcessor,
 ) ([][]funnel.Task, error) {
 	var tasks [][]funnel.Task
 
@@ -1192,7 +1211,7 @@ func (s *Service) buildDestinationTasks(
 		)
 
 		// Add processor tasks
-		procTasks, err := s.buildProcessorTasks(ctx, pl, instance.ProcessorIDs, logger)
+		procTasks, err := s.buildProcessorTasks(ctx, pl, instance.ProcessorIDs, logger, built)
 		if err != nil {
 			return nil, cerrors.Errorf("failed to build destination processor tasks: %w", err)
 		}
@@ -1223,6 +1242,7 @@ func (s *Service) buildProcessorTasks(
 	pl *pipeline.Instance,
 	processorIDs []string,
 	logger log.CtxLogger,
+	built *[]*processor.RunnableProcessor, // collects every processor reserved here
 ) ([]funnel.Task, error) {
 	var tasks []funnel.Task
 
@@ -1236,6 +1256,7 @@ func (s *Service) buildProcessorTasks(
 		if err != nil {
 			return nil, err
 		}
+		*built = append(*built, runnableProc)
 
 		tasks = append(
 			tasks,
